@@ -81,94 +81,111 @@ Definition tk_text (source : Input) (t : Token) : Input :=
 (* chumsky primitives used by tokenizer.rs                                                    *)
 (* ------------------------------------------------------------------------------------------ *)
 
-Definition Parser : Set := Input -> option Input.
+(* chumsky's input cursor on a &str: byte offset + the characters not yet consumed *)
+Record Cursor : Set := mkCur { cur_pos : N; cur_rest : Input }.
+
+(* a parser returns the cursor after the match, or fails (the caller then rewinds) *)
+Definition Parser : Set := Cursor -> option Cursor.
 
 (* just("...") / just('c'): the given code points, in order *)
-Fixpoint just (s : list N) (inp : Input) : option Input :=
+Fixpoint just_go (s : list N) (pos : N) (inp : Input) : option Cursor :=
   match s with
-  | [] => Some inp
+  | [] => Some (mkCur pos inp)
   | a :: s' =>
     match inp with
-    | c :: r => if cp c =? a then just s' r else None
+    | c :: r => if cp c =? a then just_go s' (pos + ulen c) r else None
     | [] => None
     end
   end.
+Definition just (s : list N) : Parser := fun cu => just_go s (cur_pos cu) (cur_rest cu).
 
 (* any().filter(p).repeated()  /  one_of(..).repeated()  /  none_of(..).repeated():
-   greedy, stops at the first character that does not satisfy p *)
-Fixpoint skip_while (p : Ch -> bool) (inp : Input) : Input :=
+   greedy, stops at the first character that does not satisfy p; never fails *)
+Fixpoint skip_while_go (p : Ch -> bool) (pos : N) (inp : Input) : Cursor :=
   match inp with
-  | c :: r => if p c then skip_while p r else inp
-  | [] => []
+  | c :: r => if p c then skip_while_go p (pos + ulen c) r else mkCur pos inp
+  | [] => mkCur pos []
   end.
+Definition skip_while (p : Ch -> bool) (cu : Cursor) : Cursor := skip_while_go p (cur_pos cu) (cur_rest cu).
 
 (* any().filter(p).repeated().at_least(1) *)
-Definition many1 (p : Ch -> bool) (inp : Input) : option Input :=
-  match inp with
-  | c :: r => if p c then Some (skip_while p r) else None
-  | [] => None
-  end.
+Definition many1 (p : Ch -> bool) : Parser :=
+  fun cu =>
+    match cur_rest cu with
+    | c :: r => if p c then Some (skip_while p (mkCur (cur_pos cu + ulen c) r)) else None
+    | [] => None
+    end.
 
 (* chumsky text::newline():
      if peek().to_ascii() == Some(b'\r') { skip; if peek() == '\n' { skip }; Ok }
      else { c = next(); if c.is_newline() Ok else Err } *)
-Definition newline (inp : Input) : option Input :=
-  match inp with
-  | [] => None
-  | c :: r =>
-    if cp c =? 13 then
-      match r with
-      | c2 :: r2 => if cp c2 =? 10 then Some r2 else Some r
-      | [] => Some r
-      end
-    else if c_newline c then Some r else None
-  end.
+Definition newline : Parser :=
+  fun cu =>
+    match cur_rest cu with
+    | [] => None
+    | c :: r =>
+      let pos1 := cur_pos cu + ulen c in
+      if cp c =? 13 then
+        match r with
+        | c2 :: r2 => if cp c2 =? 10 then Some (mkCur (pos1 + ulen c2) r2) else Some (mkCur pos1 r)
+        | [] => Some (mkCur pos1 r)
+        end
+      else if c_newline c then Some (mkCur pos1 r) else None
+    end.
 
-(* text::newline().repeated()  (structural form of
-   `match newline inp with Some r => newlines r | None => inp end`, see Lemmas.newlines_unfold) *)
-Fixpoint newlines (inp : Input) : Input :=
+(* text::newline().repeated()  — structural form of
+   `match newline cu with Some cu' => newlines cu' | None => cu end` (Lemmas.newlines_unfold) *)
+Fixpoint newlines_go (pos : N) (inp : Input) : Cursor :=
   match inp with
-  | [] => []
+  | [] => mkCur pos []
   | c :: r =>
+    let pos1 := pos + ulen c in
     if cp c =? 13 then
       match r with
-      | c2 :: r2 => if cp c2 =? 10 then newlines r2 else newlines r
-      | [] => newlines r
+      | c2 :: r2 => if cp c2 =? 10 then newlines_go (pos1 + ulen c2) r2 else newlines_go pos1 r
+      | [] => newlines_go pos1 r
       end
-    else if c_newline c then newlines r else inp
+    else if c_newline c then newlines_go pos1 r else mkCur pos inp
   end.
+Definition newlines (cu : Cursor) : Cursor := newlines_go (cur_pos cu) (cur_rest cu).
 
 (* chumsky text::int(10):
      any().filter(|c| c.is_digit(10) && c != '0').then(any().filter(is_digit).repeated())
        .or(just('0')) *)
-Definition int10 (inp : Input) : option Input :=
-  match inp with
-  | c :: r => if c_digit c && negb (cp c =? 48) then Some (skip_while c_digit r) else just [48] inp
-  | [] => just [48] inp
-  end.
+Definition int10 : Parser :=
+  fun cu =>
+    match cur_rest cu with
+    | c :: r =>
+      if c_digit c && negb (cp c =? 48) then Some (skip_while c_digit (mkCur (cur_pos cu + ulen c) r))
+      else just [48] cu
+    | [] => just [48] cu
+    end.
 
 (* chumsky text::digits(10): any().filter(is_digit).repeated().at_least(1) *)
-Definition digits10 (inp : Input) : option Input := many1 c_digit inp.
+Definition digits10 : Parser := many1 c_digit.
 
-(* chumsky text::ident() (unicode): any().filter(is_ident_start).then(any().filter(is_ident_continue).repeated()) *)
-Definition ident (inp : Input) : option Input :=
-  match inp with
-  | c :: r => if c_ident_start c then Some (skip_while c_ident_cont r) else None
-  | [] => None
-  end.
+(* chumsky text::ident() (unicode):
+     any().filter(is_ident_start).then(any().filter(is_ident_continue).repeated()) *)
+Definition ident : Parser :=
+  fun cu =>
+    match cur_rest cu with
+    | c :: r => if c_ident_start c then Some (skip_while c_ident_cont (mkCur (cur_pos cu + ulen c) r)) else None
+    | [] => None
+    end.
 
-(* the slice a parser consumed (`to_slice`): the prefix of inp before rest *)
-Definition consumed (inp rest : Input) : Input :=
-  firstn (length inp - length rest)%nat inp.
+(* `to_slice`: the text between two cursors *)
+Definition slice_between (cu cu' : Cursor) : Input :=
+  take_bytes (cur_pos cu' - cur_pos cu) (cur_rest cu).
 
 (* ------------------------------------------------------------------------------------------ *)
-(* tokenizer.rs sub-parsers; a token parser returns the kind and the rest                     *)
+(* tokenizer.rs sub-parsers; a token parser returns the kind and the cursor after the token   *)
 (* ------------------------------------------------------------------------------------------ *)
 
-Definition KParser : Set := Input -> option (TokenKind * Input).
+Definition KParser : Set := Cursor -> option (TokenKind * Cursor).
 
-Definition to_kind (k : TokenKind) (r : option Input) : option (TokenKind * Input) :=
-  match r with Some rest => Some (k, rest) | None => None end.
+(* p.to(kind) *)
+Definition to_kind (k : TokenKind) (r : option Cursor) : option (TokenKind * Cursor) :=
+  match r with Some cu => Some (k, cu) | None => None end.
 
 (* the tables a tokenizer is built from (instantiated with LexerTables below) *)
 Record LexTables : Set := mkTables {
@@ -184,59 +201,63 @@ Definition mem_cp (c : N) (l : list N) : bool := existsb (N.eqb c) l.
 
 (* whitespace_parser: one_of(" \t\r").repeated().at_least(1).to(Whitespace) *)
 Definition whitespace_parser (T : LexTables) : KParser :=
-  fun inp => to_kind KWhitespace (many1 (fun c => mem_cp (cp c) (t_whitespace T)) inp).
+  fun cu => to_kind KWhitespace (many1 (fun c => mem_cp (cp c) (t_whitespace T)) cu).
 
 (* linebreak_parser: text::newline().repeated().at_least(1).to(LineBreak) *)
 Definition linebreak_parser : KParser :=
-  fun inp =>
-    match newline inp with
-    | Some r => Some (KLineBreak, newlines r)
+  fun cu =>
+    match newline cu with
+    | Some cu' => Some (KLineBreak, newlines cu')
     | None => None
     end.
 
 (* comment_parser: `endline = text::newline().or(end())`; it is only used under not() and rewind(),
    i.e. as a test at the current position *)
 Definition at_endline (inp : Input) : bool :=
-  match newline inp with
+  match newline (mkCur 0 inp) with
   | Some _ => true
   | None => match inp with [] => true | _ => false end
   end.
 
 (* any().and_is(endline.not()).repeated() *)
-Fixpoint comment_body (inp : Input) : Input :=
+Fixpoint comment_body_go (pos : N) (inp : Input) : Cursor :=
   match inp with
-  | [] => []
-  | _ :: r => if at_endline inp then inp else comment_body r
+  | [] => mkCur pos []
+  | c :: r => if at_endline inp then mkCur pos inp else comment_body_go (pos + ulen c) r
   end.
 
 (* just("//").ignore_then(<comment_body>).then_ignore(endline.rewind()).to(SingleLineComment) *)
 Definition single_line_comment : KParser :=
-  fun inp =>
-    match just [47; 47] inp with
-    | Some r =>
-      let r' := comment_body r in
-      if at_endline r' then Some (KSingleLineComment, r') else None
+  fun cu =>
+    match just [47; 47] cu with
+    | Some cu1 =>
+      let cu2 := comment_body_go (cur_pos cu1) (cur_rest cu1) in
+      if at_endline (cur_rest cu2) then Some (KSingleLineComment, cu2) else None
     | None => None
     end.
 
 (* any().and_is(just("*/").not()).repeated() *)
-Fixpoint multi_line_body (inp : Input) : Input :=
+Fixpoint multi_line_body_go (pos : N) (inp : Input) : Cursor :=
   match inp with
-  | [] => []
-  | _ :: r => match just [42; 47] inp with Some _ => inp | None => multi_line_body r end
+  | [] => mkCur pos []
+  | c :: r =>
+    match just_go [42; 47] pos inp with
+    | Some _ => mkCur pos inp
+    | None => multi_line_body_go (pos + ulen c) r
+    end
   end.
 
 (* just("/*").ignore_then(<multi_line_body>).then_ignore(just("*/")).to(MultiLineComment) *)
 Definition multi_line_comment : KParser :=
-  fun inp =>
-    match just [47; 42] inp with
-    | Some r => to_kind KMultiLineComment (just [42; 47] (multi_line_body r))
+  fun cu =>
+    match just [47; 42] cu with
+    | Some cu1 => to_kind KMultiLineComment (just [42; 47] (multi_line_body_go (cur_pos cu1) (cur_rest cu1)))
     | None => None
     end.
 
 (* p.or(q) *)
 Definition or_else (p q : KParser) : KParser :=
-  fun inp => match p inp with Some x => Some x | None => q inp end.
+  fun cu => match p cu with Some x => Some x | None => q cu end.
 
 (* comment_parser: single_line.or(multi_line) *)
 Definition comment_parser : KParser := or_else single_line_comment multi_line_comment.
@@ -244,28 +265,28 @@ Definition comment_parser : KParser := or_else single_line_comment multi_line_co
 (* string_parser: none_of(DQUOTE).repeated().delimited_by(just(DQUOTE), just(DQUOTE)).to(Str),
    DQUOTE = the double-quote character, code point 34 *)
 Definition string_parser : KParser :=
-  fun inp =>
-    match just [34] inp with
-    | Some r => to_kind KStr (just [34] (skip_while (fun c => negb (cp c =? 34)) r))
+  fun cu =>
+    match just [34] cu with
+    | Some cu1 => to_kind KStr (just [34] (skip_while (fun c => negb (cp c =? 34)) cu1))
     | None => None
     end.
 
 (* just('.').not().ignored().or(end()).rewind() : a test at the current position *)
 Definition float_lookahead (inp : Input) : bool :=
-  match just [46] inp with
+  match just_go [46] 0 inp with
   | None => true
   | Some _ => match inp with [] => true | _ => false end
   end.
 
 (* float = text::int(10).then_ignore(just('.')).then(text::digits(10)).then_ignore(<float_lookahead>).to(Float) *)
 Definition float_parser : KParser :=
-  fun inp =>
-    match int10 inp with
-    | Some r1 =>
-      match just [46] r1 with
-      | Some r2 =>
-        match digits10 r2 with
-        | Some r3 => if float_lookahead r3 then Some (KFloat, r3) else None
+  fun cu =>
+    match int10 cu with
+    | Some cu1 =>
+      match just [46] cu1 with
+      | Some cu2 =>
+        match digits10 cu2 with
+        | Some cu3 => if float_lookahead (cur_rest cu3) then Some (KFloat, cu3) else None
         | None => None
         end
       | None => None
@@ -275,16 +296,16 @@ Definition float_parser : KParser :=
 
 (* number_parser: float.or(int) *)
 Definition number_parser : KParser :=
-  or_else float_parser (fun inp => to_kind KInt (int10 inp)).
+  or_else float_parser (fun cu => to_kind KInt (int10 cu)).
 
 (* choice(( just(s1).to(k1), just(s2).to(k2), ... )) *)
-Fixpoint first_just (table : list (list N * TokenKind)) (inp : Input) : option (TokenKind * Input) :=
+Fixpoint first_just (table : list (list N * TokenKind)) (cu : Cursor) : option (TokenKind * Cursor) :=
   match table with
   | [] => None
   | (s, k) :: t =>
-    match just s inp with
-    | Some r => Some (k, r)
-    | None => first_just t inp
+    match just s cu with
+    | Some cu' => Some (k, cu')
+    | None => first_just t cu
     end
   end.
 
@@ -307,9 +328,9 @@ Fixpoint keyword_kind (table : list (list N * TokenKind)) (default : TokenKind) 
 
 (* identifier_parser: text::ident().to_slice().map(|ident| match ident {..}) *)
 Definition identifier_parser (T : LexTables) : KParser :=
-  fun inp =>
-    match ident inp with
-    | Some r => Some (keyword_kind (t_keywords T) (t_ident_default T) (map cp (consumed inp r)), r)
+  fun cu =>
+    match ident cu with
+    | Some cu' => Some (keyword_kind (t_keywords T) (t_ident_default T) (map cp (slice_between cu cu')), cu')
     | None => None
     end.
 
@@ -327,10 +348,10 @@ Definition run_rule (T : LexTables) (r : Rule) : KParser :=
 
 (* choice((p1, p2, ...)) *)
 Fixpoint choice (ps : list KParser) : KParser :=
-  fun inp =>
+  fun cu =>
     match ps with
     | [] => None
-    | p :: t => match p inp with Some x => Some x | None => choice t inp end
+    | p :: t => match p cu with Some x => Some x | None => choice t cu end
     end.
 
 (* token_parser: choice((comment, linebreak, whitespace, string, number, identifier, operator, punctuation))
@@ -339,7 +360,11 @@ Definition token_parser (T : LexTables) : KParser := choice (map (run_rule T) (t
 
 (* error_token = any().map_with(.. Token::new(Error, span.start, span.end - span.start)) *)
 Definition error_token : KParser :=
-  fun inp => match inp with _ :: r => Some (KError, r) | [] => None end.
+  fun cu =>
+    match cur_rest cu with
+    | c :: r => Some (KError, mkCur (cur_pos cu + ulen c) r)
+    | [] => None
+    end.
 
 (* ------------------------------------------------------------------------------------------ *)
 (* tokenize                                                                                   *)
@@ -350,23 +375,21 @@ Inductive Lexed : Set :=
   | LexFail                     (* parse(source) produced None (then_ignore(end()) failed) *)
   | LexOutOfFuel.
 
-(* token_parser().map_with(span).or(error_token).repeated().collect().then_ignore(end())
-   `pos` is the byte offset of inp in the source (span.start); span.end - span.start is the number
-   of bytes consumed. *)
-Fixpoint lex_loop (fuel : nat) (T : LexTables) (pos : N) (inp : Input) : Lexed :=
+(* token_parser().map_with(|kind, e| Token::new(kind, span.start, span.end - span.start))
+     .or(error_token).repeated().collect().then_ignore(end()) *)
+Fixpoint lex_loop (fuel : nat) (T : LexTables) (cu : Cursor) : Lexed :=
   match fuel with
   | O => LexOutOfFuel
   | S f =>
-    match or_else (token_parser T) error_token inp with
-    | Some (k, rest) =>
-      let n := blen inp - blen rest in
-      match lex_loop f T (pos + n) rest with
-      | LexOk l => LexOk (mkTok k pos n :: l)
+    match or_else (token_parser T) error_token cu with
+    | Some (k, cu') =>
+      match lex_loop f T cu' with
+      | LexOk l => LexOk (mkTok k (cur_pos cu) (cur_pos cu' - cur_pos cu) :: l)
       | e => e
       end
     | None =>
       (* repeated() stops at the first failure; then end() must match *)
-      match inp with [] => LexOk [] | _ => LexFail end
+      match cur_rest cu with [] => LexOk [] | _ => LexFail end
     end
   end.
 
@@ -432,7 +455,7 @@ Inductive TokResult : Set :=
 
 (* pub fn tokenize(source) *)
 Definition tokenize_with (T : LexTables) (source : Input) : TokResult :=
-  match lex_loop (S (length source)) T 0 source with
+  match lex_loop (S (length source)) T (mkCur 0 source) with
   | LexOk toks => TokOk (split_projection_float_tokens toks source ++ [mkTok KEof (blen source) 0])
   | LexFail => TokOk [mkTok KEof (blen source) 0]
   | LexOutOfFuel => TokOutOfFuel
@@ -447,31 +470,32 @@ Definition tokenize (source : Input) : TokResult := tokenize_with the_tables sou
 (* preparser.rs                                                                               *)
 (* ------------------------------------------------------------------------------------------ *)
 
-(* HashMap<usize, Vec<usize>> as an association list (order of keys is irrelevant to the Rust code) *)
-Definition TriviaMap : Set := list (nat * list nat).
+(* token indices are N (binary) so that the extracted model is fast; HashMap<usize, Vec<usize>> is an
+   association list (the Rust code never depends on the order of keys) *)
+Definition TriviaMap : Set := list (N * list N).
 
 (* map.entry(k).or_default().append(&mut vs) *)
-Fixpoint map_append (k : nat) (vs : list nat) (m : TriviaMap) : TriviaMap :=
+Fixpoint map_append (k : N) (vs : list N) (m : TriviaMap) : TriviaMap :=
   match m with
   | [] => [(k, vs)]
-  | (k', l) :: r => if Nat.eqb k' k then (k', l ++ vs) :: r else (k', l) :: map_append k vs r
+  | (k', l) :: r => if k' =? k then (k', l ++ vs) :: r else (k', l) :: map_append k vs r
   end.
 
 (* map.get(&k) *)
-Fixpoint map_get (k : nat) (m : TriviaMap) : option (list nat) :=
+Fixpoint map_get (k : N) (m : TriviaMap) : option (list N) :=
   match m with
   | [] => None
-  | (k', l) :: r => if Nat.eqb k' k then Some l else map_get k r
+  | (k', l) :: r => if k' =? k then Some l else map_get k r
   end.
 
 (* the local state of `preparse` *)
 Record PreState : Set := mkPre {
-  ps_token_indices : list nat;          (* result.token_indices *)
+  ps_token_indices : list N;            (* result.token_indices *)
   ps_leading : TriviaMap;               (* result.leading_trivia_map *)
   ps_trailing : TriviaMap;              (* result.trailing_trivia_map *)
-  ps_pending : list nat;                (* pending_trivia *)
+  ps_pending : list N;                  (* pending_trivia *)
   ps_last_was_linebreak : bool;
-  ps_last_token_idx : option nat
+  ps_last_token_idx : option N
 }.
 
 Definition pre_init : PreState := mkPre [] [] [] [] false None.
@@ -480,7 +504,7 @@ Definition is_eof (t : Token) : bool := match tk_kind t with KEof => true | _ =>
 Definition is_linebreak (t : Token) : bool := match tk_kind t with KLineBreak => true | _ => false end.
 
 (* body of `for (i, token) in tokens.iter().enumerate()` *)
-Definition pre_step (st : PreState) (i : nat) (token : Token) : PreState :=
+Definition pre_step (st : PreState) (i : N) (token : Token) : PreState :=
   if is_trivia token then
     let pending := ps_pending st ++ [i] in
     if is_linebreak token then
@@ -495,7 +519,7 @@ Definition pre_step (st : PreState) (i : nat) (token : Token) : PreState :=
     else
       mkPre (ps_token_indices st) (ps_leading st) (ps_trailing st) pending false (ps_last_token_idx st)
   else if negb (is_eof token) then
-    let current_idx := length (ps_token_indices st) in
+    let current_idx := N.of_nat (length (ps_token_indices st)) in
     let st' :=
       match ps_pending st with
       | [] => st
@@ -515,15 +539,15 @@ Definition pre_step (st : PreState) (i : nat) (token : Token) : PreState :=
           false (Some current_idx)
   else st.
 
-Fixpoint pre_loop (st : PreState) (i : nat) (tokens : list Token) : PreState :=
+Fixpoint pre_loop (st : PreState) (i : N) (tokens : list Token) : PreState :=
   match tokens with
   | [] => st
-  | t :: r => pre_loop (pre_step st i t) (S i) r
+  | t :: r => pre_loop (pre_step st i t) (N.succ i) r
   end.
 
 (* pub struct PreParsedTokens *)
 Record PreParsed : Set := mkPP {
-  pp_token_indices : list nat;
+  pp_token_indices : list N;
   pp_leading : TriviaMap;
   pp_trailing : TriviaMap
 }.
